@@ -1,5 +1,9 @@
 package chk
 
+import (
+	"golang.org/x/tools/go/ssa"
+)
+
 // Property registry: which rule families decide the structural clauses of each property.
 
 type PropSpec struct {
@@ -15,20 +19,257 @@ func register(id, explain string, trusted []string, rules ...func(p *Prog, r *Re
 	Props[id] = &PropSpec{ID: id, Explain: explain, Rules: rules, Trusted: trusted}
 }
 
+const levelNote = " Level 'other': these are structural necessary conditions decided soundly from the type-checked program for every input / configuration / schedule; the behavioural whole of the property is NOT decided."
+
+func fnSet(fns []*ssa.Function) map[*ssa.Function]bool {
+	m := map[*ssa.Function]bool{}
+	for _, f := range fns {
+		m[f] = true
+	}
+	return m
+}
+
+func (p *Prog) named(names ...string) []*ssa.Function {
+	var out []*ssa.Function
+	for _, n := range names {
+		if f := p.Fn(n); f != nil {
+			out = append(out, f)
+		}
+	}
+	return out
+}
+
+// c15Roots: every entry point C15 quantifies over (decoders, string-argument APIs, encoders applied to decoder output).
+func c15Roots() []string {
+	return concat(grpMapDecode, grpSeqDecode, grpJsonDecode, grpGob, grpBeautify, grpQuery, grpLeaf, grpProject, grpMutators,
+		grpMapEncode, grpSeqEncode, grpAnyEncode, grpJsonEncode)
+}
+
+func encoderRoots() []string {
+	return concat(grpMapEncode, grpSeqEncode, grpAnyEncode, grpJsonEncode, grpBeautify,
+		[]string{"mxj.Map.StringIndent", "mxj.Map.StringIndentNoTypeInfo", "mxj.MapSeq.StringIndent", "mxj.MapSeq.StringIndentNoTypeInfo"})
+}
+
+// panicRules runs the PANIC family over the module functions reachable from the roots (core package only).
+func panicRules(roots []string) func(p *Prog, r *Report) {
+	return func(p *Prog, r *Report) {
+		fns := p.scopeFuncs(r, "PANIC.scope", roots)
+		var core []*ssa.Function
+		for _, f := range fns {
+			if p.isSetter(f) {
+				continue
+			}
+			if hasPrefixAny(p.Name(f), "mxj.") {
+				core = append(core, f)
+			}
+		}
+		rulePanicAssert(p, r, core)
+		rulePanicIdx(p, r, "mxj", ".", fnSet(core))
+		rulePanicNil(p, r, core)
+		rulePanicExplicit(p, r, core)
+	}
+}
+
 func init() {
+	register("C01",
+		"Structural clauses of 'XML decodes to the documented Map under all options' decided on xmlToMapParser: INFL.cover (attribute keys depend on attrPrefix, lowerCase, snakeCaseKeys and the attribute name; element keys on lowerCase/snakeCaseKeys; text on trimRunes and xmlEscapeCharsDecoder and passes through cast with the decoder's flag; text-key choice on decodeSimpleValuesAsMap; _seq only under includeTagSeqNum), INFL.castflag (structure independent of the cast flag), TABLE.keys (shared key variables, no literals), DECODE.sibling (every decoded child is stored on every path; repeated siblings are append(existing, new)), PANIC.nil/assert/idx on the decoder. Not decided: equality of the produced Map with the documented one (trimming results, collisions, case-folding values)."+levelNote,
+		[]string{"documented option semantics transcribed in rules_infl.go"},
+		ruleInflCover,
+		func(p *Prog, r *Report) { ruleInflCastFlag(p, r) },
+		ruleTableKeys,
+		func(p *Prog, r *Report) { ruleDecodeSibling(p, r, []string{"mxj.xmlToMapParser"}) },
+		panicRules(grpMapDecode))
+
+	register("C02",
+		"Structural agreement of decoder and encoder conventions: TABLE.keys (both halves read the shared key variables), PAIR.derived (lenAttrPrefix tracks attrPrefix), TABLE.partition (attribute / text / element partition of a map's keys is the same predicate in both scans), ESC.flow (every Map value reaches the output escaped unless xmlEscapeChars is known false), TABLE.escape (entity table, order, no unescaped early return), ORDER (sorted emission), WALK.arms (every list member and collected child is encoded). Not decided: equality of the second decode with the first; well-formedness as a whole."+levelNote,
+		nil,
+		ruleTableKeys, rulePairDerived, ruleTablePartition, ruleEsc, ruleTableEscape, ruleOptExcl,
+		func(p *Prog, r *Report) { ruleOrder(p, r, grpMapEncode) },
+		func(p *Prog, r *Report) { ruleWalkArms(p, r, []string{"mxj.marshalMapToXmlIndent"}) })
+
+	register("C03",
+		"Structural clauses of 'encoding a JSON-shaped value as XML preserves all data': WALK.arms (every list member encoded in order under its key, every collected child encoded, AnyXml encodes every member of a list value), TABLE.partition, ESC.flow, ERR.path on the Map encoders and AnyXml/AnyXmlIndent (an element encoder error cannot be overwritten or dropped). Not decided: decode(encode(m)) ≅ m; well-formedness for arbitrary key strings."+levelNote,
+		nil,
+		func(p *Prog, r *Report) { ruleWalkArms(p, r, []string{"mxj.marshalMapToXmlIndent"}) },
+		ruleAnyXmlList, ruleTablePartition, ruleEsc,
+		func(p *Prog, r *Report) {
+			ruleErr(p, r, []string{"mxj.Map.Xml", "mxj.Map.XmlIndent", "mxj.AnyXml", "mxj.AnyXmlIndent"}, "Map encoders and AnyXml")
+		})
+
+	register("C04",
+		"Structural clauses of the MapSeq round trip: PAIR.seq (every token kind gets a fresh sequence number that is advanced in the same block; attributes take their index; the child collection skips exactly the attribute and sequence keys), ORDER on the sequence encoder (attributes and children are sorted by sequence number before any write), DECODE.sibling and WALK.arms for the sequence codec, SHAPE.seq (decoder output has the shape the encoder asserts), PANIC.* on both halves, WRAP.compose for BeautifyXml. Not decided: token-stream equality."+levelNote,
+		nil,
+		rulePairSeq,
+		func(p *Prog, r *Report) { ruleOrder(p, r, concat(grpSeqEncode, grpBeautify)) },
+		func(p *Prog, r *Report) { ruleDecodeSibling(p, r, []string{"mxj.xmlSeqToMapParser"}) },
+		func(p *Prog, r *Report) { ruleWalkArms(p, r, []string{"mxj.mapToXmlSeqIndent"}) },
+		func(p *Prog, r *Report) {
+			ruleWrapCompose(p, r, []wrapSpec{{"mxj.BeautifyXml", []string{"mxj.NewMapXmlSeq", "mxj.MapSeq.XmlIndent"}, false}})
+		},
+		panicRules(concat(grpSeqDecode, grpSeqEncode, grpBeautify)))
+
+	register("C05",
+		"Structural clauses of 'special characters survive; invalid output is an error': ESC.flow (value sinks of both encoders), TABLE.escape, OPT.excl (encoder- and decoder-side escaping never both on), VALID.coupling (each of the four encoders validates the very bytes it returns, under xmlCheckIsValid), ERR.path on the four encoders (an encoder or validator error always reaches the caller). Not decided: exact value recovery, absence of double escaping for already-escaped input, well-formedness of all output."+levelNote,
+		nil,
+		ruleEsc, ruleTableEscape, ruleOptExcl, ruleValidCoupling,
+		func(p *Prog, r *Report) {
+			ruleErr(p, r, []string{"mxj.Map.Xml", "mxj.Map.XmlIndent", "mxj.MapSeq.Xml", "mxj.MapSeq.XmlIndent"}, "the four XML encoders")
+		})
+
+	register("C06",
+		"Structural clauses of 'JSON encode/decode is lossless': TABLE.norewrite (the bytes returned by Json/JsonIndent come from encoding/json without textual substitution; safeEncoding selects the escaping mode), INFL.cover (JsonUseNumber controls Decoder.UseNumber), WRAP.compose (Copy = Json then NewMapJson), WRAP.writer (the Writer forms hand the writer exactly the encoder's bytes), ERR.path on the JSON functions. Not decided: agreement with encoding/json on acceptance; array wrapping."+levelNote,
+		nil,
+		ruleTableNoRewrite,
+		func(p *Prog, r *Report) { ruleInflCoverJson(p, r) },
+		func(p *Prog, r *Report) {
+			ruleWrapCompose(p, r, []wrapSpec{{"mxj.Map.Copy", []string{"mxj.Map.Json", "mxj.NewMapJson"}, false}})
+		},
+		ruleWrapWriter,
+		func(p *Prog, r *Report) {
+			ruleErr(p, r, concat(grpJsonEncode, []string{"mxj.NewMapJson", "mxj.NewMapJsonReader", "mxj.NewMapJsonReaderRaw"}), "JSON functions")
+		})
+
+	register("C07",
+		"Structural clauses of ValuesForPath exactness: PAIR.count (result is ret[:cnt] with cnt == len(ret)), WALK.progress (each recursion consumes exactly one segment; values are appended only when the path is exhausted), WALK.collect (collecting helpers are not recursive), ALIAS.reuse (no result buffer shares the array of a slice still being ranged over faster than it is consumed), WRAP.compose for ValueForPath / ValueForPathString / Exists (first value / non-empty of the plural form), PANIC.idx/assert on the indexed-path wrapper and the path parser. Not decided: that the returned multiset is the denoted one."+levelNote,
+		nil,
+		func(p *Prog, r *Report) { rulePairCount(p, r, []string{"mxj.Map.oldValuesForPath"}) },
+		func(p *Prog, r *Report) { ruleWalkProgress(p, r, []string{"mxj.valuesForKeyPath"}) },
+		func(p *Prog, r *Report) { ruleWalkCollect(p, r, []string{"mxj.valuesForKeyPath"}) },
+		func(p *Prog, r *Report) {
+			ruleAliasReuse(p, r, p.scopeFuncs(r, "ALIAS.reuse", []string{"mxj.Map.ValuesForPath"}))
+		},
+		func(p *Prog, r *Report) {
+			ruleWrapCompose(p, r, []wrapSpec{{"mxj.Map.ValueForPath", []string{"mxj.Map.ValuesForPath"}, true},
+				{"mxj.Map.ValueForPathString", []string{"mxj.Map.ValuesForPath"}, true}, {"mxj.Map.Exists", []string{"mxj.Map.ValuesForPath"}, true}})
+		},
+		panicRules([]string{"mxj.Map.ValuesForPath", "mxj.Map.ValueForPath", "mxj.Map.ValueForPathString", "mxj.Map.Exists"}))
+
+	register("C08",
+		"Structural clauses of key search and sub-key filters: WALK.total (hasKey and hasKeyPath visit every map entry and list member), WALK.collect, PAIR.count (ValuesForKey), INFL.filter (sub-keys reach only the predicate; no sub-keys means no filtering; the predicate is read-only), INFL.crumb (child paths never contain the searched key), INFL.metric (shortest path by segment count), INFL.cover (sub-key specifications are split on fieldSep), EFFECT.recv for the query methods. Not decided: set equality between ValuesForKey, PathsForKey and ValuesForPath; the predicate's truth table."+levelNote,
+		nil,
+		func(p *Prog, r *Report) { ruleWalkTotal(p, r, []walkerSpec{{"mxj.hasKey", nil}, {"mxj.hasKeyPath", nil}}) },
+		func(p *Prog, r *Report) { ruleWalkCollect(p, r, []string{"mxj.hasKey"}) },
+		func(p *Prog, r *Report) { rulePairCount(p, r, []string{"mxj.Map.ValuesForKey"}) },
+		func(p *Prog, r *Report) { ruleInflFilter(p, r, []string{"mxj.hasKey", "mxj.valuesForKeyPath"}) },
+		func(p *Prog, r *Report) { ruleInflCrumb(p, r, []string{"mxj.hasKeyPath"}) },
+		func(p *Prog, r *Report) { ruleShortestMetric(p, r, []string{"mxj.Map.PathForKeyShortest"}) },
+		ruleInflFieldSep,
+		func(p *Prog, r *Report) {
+			ruleEffectRecv(p, r, p.named("mxj.Map.ValuesForKey", "mxj.Map.ValueForKey", "mxj.Map.PathsForKey", "mxj.Map.PathForKeyShortest", "mxj.Map.ValuesForPath"), "EFFECT.recv")
+		},
+		panicRules([]string{"mxj.Map.ValuesForKey", "mxj.Map.ValueForKey", "mxj.Map.PathsForKey", "mxj.Map.PathForKeyShortest"}))
+
+	register("C09",
+		"Structural clauses of LeafNodes: WALK.total (getLeafNodes visits every entry and member; skips depend only on the no-attribute option and the attribute prefix; the scalar arm appends exactly one LeafNode carrying the node), WRAP.compose + FWD (LeafPaths/LeafValues are projections of LeafNodes and forward their option), PANIC.idx/assert on the walker. Not decided: that each path resolves to exactly its value."+levelNote,
+		nil,
+		func(p *Prog, r *Report) {
+			ruleWalkTotal(p, r, []walkerSpec{{"mxj.getLeafNodes", []string{"param:noattr", "load(mxj.attrPrefix)"}}})
+		},
+		ruleWalkLeaf,
+		func(p *Prog, r *Report) {
+			ruleWrapCompose(p, r, []wrapSpec{{"mxj.Map.LeafPaths", []string{"mxj.Map.LeafNodes"}, true}, {"mxj.Map.LeafValues", []string{"mxj.Map.LeafNodes"}, true}})
+		},
+		func(p *Prog, r *Report) {
+			ruleFwdVariadic(p, r, func(n string) bool { return hasPrefixAny(n, "mxj.Map.Leaf") })
+		},
+		panicRules(grpLeaf))
+
+	register("C10",
+		"Structural clauses of UpdateValuesForPath: PAIR.update (writes only under the update key or the last segment tested equal to it; the stored value is the new value or a list rebuilt from old members and the new value; per block the counter increments equal the replacements; the rebuilt list is stored only when something was replaced), WALK.progress (one segment per recursion, hand-over to the leaf function exactly at the last segment), INFL.filter, INFL.cover (new-value strings are split on fieldSep). Not decided: that navigation addresses the same nodes as ValuesForPath; the post-state query clause."+levelNote,
+		nil,
+		rulePairUpdate,
+		func(p *Prog, r *Report) { ruleWalkProgress(p, r, []string{"mxj.updateValuesForKeyPath"}) },
+		ruleWalkHandover,
+		func(p *Prog, r *Report) { ruleInflFilter(p, r, []string{"mxj.updateValuesForKeyPath", "mxj.updateValue"}) },
+		ruleInflFieldSep,
+		panicRules([]string{"mxj.Map.UpdateValuesForPath"}))
+
+	register("C11",
+		"Structural clauses of SetValueForPath / Remove / RenameKey: PAIR.atomic (exactly the documented writes, none in a loop, no error return reachable after a write, the renamed value moved unchanged then the old key deleted on the same parent, collision test is a presence test), WALK.progress for the parent walker (parent returned by position, recursion on the rest of the path), PANIC.assert/idx/nil. Not decided: the frame condition as a whole; refusal to overwrite at top level (a string-value fact)."+levelNote,
+		nil,
+		rulePairAtomic, ruleWalkParent,
+		panicRules(grpMutators[:3]))
+
+	register("C12",
+		"Structural clauses of NewMap: EFFECT.recv (no write instruction reachable from NewMap can target memory reachable from the receiver, for every list of pairs), ERR.path, PANIC.* on the projection code. Not decided: exact content of the projection."+levelNote,
+		nil,
+		func(p *Prog, r *Report) { ruleEffectRecv(p, r, p.named("mxj.Map.NewMap"), "EFFECT.recv") },
+		func(p *Prog, r *Report) { ruleErr(p, r, []string{"mxj.Map.NewMap"}, "NewMap") },
+		panicRules(grpProject))
+
+	register("C13",
+		"Structural clauses of reader-schedule independence: IO.read (every Read result is consumed as the io.Reader contract prescribes: count tested, data used only when n > 0, data before error, (0,nil) retried), IO.bytereader (xml.NewDecoder always gets an io.ByteReader; adaptors read one byte at a time), IO.tee (the raw capture receives exactly the bytes handed to the decoder; Raw functions return the sink's bytes), LOOP.handler (handlers get the decoded value, false stops reading), WRAP.fileloop, PANIC.nil on the raw JSON reader, ERR.path. Not decided: equality of decoded Maps with direct decoding; the hand-written JSON scanner's quote/escape logic."+levelNote,
+		[]string{"io.Reader / io.ByteReader / io.Writer contracts as documented"},
+		func(p *Prog, r *Report) { ruleIORead(p, r, p.PkgFuncs("mxj")) },
+		func(p *Prog, r *Report) { ruleIOByteReader(p, r, p.PkgFuncs("mxj")) },
+		ruleIOTee,
+		func(p *Prog, r *Report) {
+			ruleLoopHandler(p, r, []string{"mxj.HandleXmlReader", "mxj.HandleXmlReaderRaw", "mxj.HandleJsonReader", "mxj.HandleJsonReaderRaw"})
+		},
+		ruleWrapFileLoop,
+		func(p *Prog, r *Report) {
+			rulePanicNil(p, r, p.named("mxj.NewMapJsonReader", "mxj.NewMapJsonReaderRaw", "mxj.getJson", "mxj.NewMapXmlReader", "mxj.NewMapXmlReaderRaw", "mxj.NewMapXmlSeqReader", "mxj.NewMapXmlSeqReaderRaw"))
+		},
+		func(p *Prog, r *Report) {
+			ruleErr(p, r, concat([]string{"mxj.NewMapXmlReader", "mxj.NewMapXmlReaderRaw", "mxj.NewMapXmlSeqReader", "mxj.NewMapXmlSeqReaderRaw", "mxj.NewMapJsonReader", "mxj.NewMapJsonReaderRaw",
+				"mxj.HandleXmlReader", "mxj.HandleXmlReaderRaw", "mxj.HandleJsonReader", "mxj.HandleJsonReaderRaw", "mxj.NewMapsFromXmlFile", "mxj.NewMapsFromXmlFileRaw", "mxj.NewMapsFromJsonFile", "mxj.NewMapsFromJsonFileRaw"}), "reader functions")
+		})
+
+	register("C14",
+		"Structural clauses of casting: INFL.castflag (the cast flag reaches only cast() and the recursion, so structure cannot depend on it; every cast option is read only on the flag-true path; every return of cast is the identical input string or a successful strconv.Parse* of it), TABLE.naninf (with CastNanInf off all seven spellings strconv.ParseFloat accepts for NaN/Inf are excluded before its result can be returned), cast call-site coverage (attribute, text and simple values of both decoders pass through cast with the decoder's flag). Not decided: that each leaf gets exactly the value its text denotes."+levelNote,
+		[]string{"strconv.ParseFloat documentation (accepted NaN/Inf spellings)"},
+		ruleInflCastFlag, ruleTableNanInf, ruleInflCover)
+
+	register("C15",
+		"Panic-obligation discharge over every core function reachable from the decoders, the string-argument APIs and the encoders: PANIC.idx (every index/slice operation is either proven in range by the Go compiler's prove pass or discharged by the zone analysis / a structural rule), PANIC.assert (every single-value type assertion has an operand whose dynamic type set is within the asserted type), PANIC.nil (nil map writes, nil dereferences of module results, method calls on nil errors, calls of nil function variables), PANIC.explicit, and ERR.path on the decoders. Not decided: stack exhaustion on deeply nested input, panics inside the standard library on well-typed arguments, termination of the bulk handlers, 'fails exactly when the tokenizer rejects'."+levelNote,
+		nil,
+		panicRules(c15Roots()),
+		func(p *Prog, r *Report) {
+			ruleErr(p, r, concat(grpMapDecode, grpSeqDecode, grpJsonDecode, grpGob, grpBeautify), "decoders")
+		})
+
+	register("C16",
+		"Structural clauses of encoder determinism and variant agreement: ORDER (no order-sensitive effect inside a map range; collected slices sorted before use; the sort key is the map key / sequence number), WRAP.writer (8 writer forms write exactly the encoder's bytes once), WRAP.concat (Maps string forms concatenate per-Map encodings in list order; file forms write exactly the string form), INFL.indent (the indent flag only adds whitespace), EFFECT.nondet (no goroutine/time/rand/pool on encoder paths), FWD.variadic/FWD.param (options forwarded), OPT.scope (encoders read only encoder options). Not decided: byte identity between variants beyond the structural identity of the bytes handed on."+levelNote,
+		nil,
+		func(p *Prog, r *Report) { ruleOrder(p, r, encoderRoots()) },
+		func(p *Prog, r *Report) { ruleNondet(p, r, encoderRoots()) },
+		ruleWrapWriter, ruleWrapConcat, ruleInflIndent,
+		func(p *Prog, r *Report) {
+			ruleFwdVariadic(p, r, func(n string) bool {
+				return hasPrefixAny(n, "mxj.Maps.", "mxj.Map.Json", "mxj.Map.Xml", "mxj.MapSeq.Xml", "mxj.AnyXml")
+			})
+		},
+		func(p *Prog, r *Report) { ruleOptScope(p, r, "MapEncode", "SeqEncode", "SeqEncodeIndent", "Json") })
+
+	register("C17",
+		"The static argument for 'read-only operations never modify their receiver and may run concurrently': EFFECT.recv (for each of the read-only Map/MapSeq/Maps methods, no write instruction in any function reachable from it can target memory reachable from its receiver), EFFECT.global (no function reachable from a non-setter API writes a package variable or memory reachable from one), OWN.fresh (Copy's result reaches no memory of its argument), OPT.writers. Without a write instruction that can reach shared memory there is no schedule that races or modifies the receiver. Not decided: 'results identical to sequential execution' beyond the absence of shared writes; thread-safety of the standard library is trusted."+levelNote,
+		[]string{"whole-program inclusion-based points-to analysis (pointsto.go) with the standard-library effect model", "standard library internals are data-race free for distinct values"},
+		func(p *Prog, r *Report) { ruleEffectRecv(p, r, p.readOnlyMethods(), "EFFECT.recv") },
+		ruleEffectGlobal,
+		func(p *Prog, r *Report) { ruleOwnFresh(p, r, "mxj.Map.Copy") },
+		ruleOptWriters)
+
 	register("C18",
-		"Structural necessary conditions of 'options have only their documented effect and can be restored', decided on the type-checked SSA program for every call history: "+
-			"OPT.writers (each package variable is stored only by init and its named setter: no hidden state survives a reset), "+
-			"OPT.setter (per setter and argument-count class {0,1,>=2}, every CFG path stores the documented value: toggle / explicit / unchanged; explicit stores do not depend on the old value), "+
-			"OPT.excl (encoder- and decoder-side escaping never both on at a setter exit), OPT.dead (every option is read by some non-setter), "+
-			"PAIR.derived (lenAttrPrefix and trimRunes are recomputed with their master variable), OPT.scope (API groups never load options documented not to affect them). "+
-			"Not decided: behavioural equality with a fresh process; restorability of SetGlobalKeyMapPrefix for arbitrary prefix characters.",
+		"Structural necessary conditions of 'options have only their documented effect and can be restored', decided for every call history: OPT.writers (each package variable is stored only by init and its named setter: no hidden state survives a reset), OPT.setter (per setter and argument-count class {0,1,>=2}, every CFG path stores the documented value: toggle / explicit / unchanged; explicit stores do not depend on the old value), OPT.excl (encoder- and decoder-side escaping never both on at a setter exit), OPT.dead (every option is read by some non-setter), PAIR.derived (lenAttrPrefix and trimRunes are recomputed with their master variable), OPT.scope (API groups never load options documented not to affect them), INFL.castflag (cast options are read only under the cast flag). Not decided: behavioural equality with a fresh process; restorability of SetGlobalKeyMapPrefix for arbitrary prefix characters."+levelNote,
 		[]string{"option documentation transcribed in tables.go/rules_opt.go"},
 		ruleOptWriters, ruleOptSetter, ruleOptExcl, func(p *Prog, r *Report) { ruleOptDead(p, r, "mxj") }, rulePairDerived,
-		func(p *Prog, r *Report) { ruleOptScope(p, r) })
+		func(p *Prog, r *Report) { ruleOptScope(p, r) }, ruleInflCastFlag)
+
+	register("C19",
+		"Structural clauses of 'files, gob and Copy read back equal': WRAP.concat (file writers write exactly the string form, which is the concatenation of per-Map encodings), WRAP.fileloop (readers loop on the raw reader over the opened file; exits only by io.EOF or an error return carrying the Maps read so far; every decoded Map is appended), TABLE.gob (Encode/Decode type agreement; container types registered), WRAP.compose + OWN.fresh (Copy), ERR.path on the file and gob functions. Not decided: equality of what is read back; behaviour on truncated files."+levelNote,
+		nil,
+		ruleWrapConcat, ruleWrapFileLoop, ruleTableGob,
+		func(p *Prog, r *Report) {
+			ruleWrapCompose(p, r, []wrapSpec{{"mxj.Map.Copy", []string{"mxj.Map.Json", "mxj.NewMapJson"}, false}})
+		},
+		func(p *Prog, r *Report) { ruleOwnFresh(p, r, "mxj.Map.Copy") },
+		func(p *Prog, r *Report) {
+			ruleErr(p, r, []string{"mxj.Maps.XmlFile", "mxj.Maps.XmlFileIndent", "mxj.Maps.JsonFile", "mxj.Maps.JsonFileIndent", "mxj.NewMapsFromXmlFile", "mxj.NewMapsFromXmlFileRaw",
+				"mxj.NewMapsFromJsonFile", "mxj.NewMapsFromJsonFileRaw", "mxj.Map.Gob", "mxj.NewMapGob", "mxj.Map.Copy"}, "file, gob and Copy functions")
+		})
 
 	register("C20",
-		"Wrapper conformance in the resolved program: WRAP.compose over every exported function of j2x (16), x2j (16) and the thin x2j-wrapper forms (19): the module calls are exactly the documented composition, each step is applied to the result of the previous one under its err==nil edge, returned values are results of the composition; FWD.param/FWD.variadic: every parameter reaches the wrapped call; OPT.dead for the wrapper's own option. Not decided: value equality of results.",
+		"Wrapper conformance in the resolved program: WRAP.compose over every exported function of j2x (16), x2j (16) and the thin x2j-wrapper forms (19): the module calls are exactly the documented composition, each step is applied to the result of the previous one under its err==nil edge, returned values are results of the composition; FWD.param/FWD.variadic (every parameter reaches the wrapped call); for x2j-wrapper's re-implemented walkers INFL.crumb, WALK.total, WALK.progress, WALK.collect, INFL.metric; LOOP.handler and IO.read on its bulk forms; ERR.path; OPT.dead for the wrapper's own option. Not decided: value equality of results."+levelNote,
 		[]string{"wrapper documentation transcribed in rules_wrap.go"},
 		func(p *Prog, r *Report) { ruleWrapCompose(p, r, j2xSpecs()) },
 		func(p *Prog, r *Report) { ruleWrapCompose(p, r, x2jSpecs()) },
@@ -36,83 +277,23 @@ func init() {
 		func(p *Prog, r *Report) {
 			ruleFwdVariadic(p, r, func(n string) bool { return hasPrefixAny(n, "j2x.", "x2j.", "x2jw.") })
 		},
-		func(p *Prog, r *Report) { ruleOptDead(p, r, "x2jw") })
-	register("C16t",
-		"temporary", nil, ruleWrapWriter, ruleWrapConcat, ruleWrapFileLoop,
-		func(p *Prog, r *Report) { ruleWrapCompose(p, r, coreWrapSpecs()) },
-		func(p *Prog, r *Report) { ruleFwdVariadic(p, r, func(n string) bool { return hasPrefixAny(n, "mxj.") }) })
-
-	register("ERRt", "temporary", nil, func(p *Prog, r *Report) {
-		var all []string
-		for _, f := range p.FuncList {
-			if p.Exported(f) {
-				all = append(all, p.Name(f))
+		func(p *Prog, r *Report) { ruleInflCrumb(p, r, []string{"x2jw.hasKeyPath"}) },
+		func(p *Prog, r *Report) { ruleWalkTotal(p, r, []walkerSpec{{"x2jw.hasKey", nil}, {"x2jw.hasKeyPath", nil}}) },
+		func(p *Prog, r *Report) { ruleWalkProgress(p, r, []string{"x2jw.valuesFromKeyPath"}) },
+		func(p *Prog, r *Report) { ruleWalkCollect(p, r, []string{"x2jw.hasKey", "x2jw.valuesFromKeyPath"}) },
+		func(p *Prog, r *Report) { ruleShortestMetric(p, r, []string{"x2jw.PathForKeyShortest"}) },
+		func(p *Prog, r *Report) {
+			ruleLoopHandler(p, r, []string{"x2jw.XmlMsgsFromReader", "x2jw.XmlMsgsFromReaderAsJson", "x2jw.XmlMsgsFromFile", "x2jw.XmlMsgsFromFileAsJson"})
+		},
+		func(p *Prog, r *Report) { ruleIORead(p, r, p.PkgFuncs("x2jw")) },
+		func(p *Prog, r *Report) {
+			var all []string
+			for _, a := range []string{"j2x", "x2j", "x2jw"} {
+				for _, f := range p.exportedAPI(a) {
+					all = append(all, p.Name(f))
+				}
 			}
-		}
-		ruleErr(p, r, all, "all exported API")
-	})
-
-	register("ORDt", "temporary", nil, func(p *Prog, r *Report) {
-		roots := concat(grpMapEncode, grpSeqEncode, grpAnyEncode, grpJsonEncode, grpBeautify, []string{"mxj.Map.StringIndent", "mxj.Map.StringIndentNoTypeInfo", "mxj.MapSeq.StringIndent"})
-		ruleOrder(p, r, roots)
-		ruleNondet(p, r, roots)
-	})
-
-	register("EFFt", "temporary", nil, func(p *Prog, r *Report) {
-		ruleEffectRecv(p, r, p.readOnlyMethods(), "EFFECT.recv")
-		ruleEffectGlobal(p, r)
-		ruleOwnFresh(p, r, "mxj.Map.Copy")
-	})
-
-	register("PANt", "temporary", nil, func(p *Prog, r *Report) {
-		rulePanicAssert(p, r, p.FuncList)
-		rulePanicIdx(p, r, "mxj", ".", nil)
-		rulePanicNil(p, r, p.PkgFuncs("mxj"))
-		rulePanicExplicit(p, r, p.PkgFuncs("mxj"))
-	})
-
-	register("IOt", "temporary", nil, func(p *Prog, r *Report) {
-		fns := append(p.PkgFuncs("mxj"), p.PkgFuncs("x2jw")...)
-		ruleIORead(p, r, fns)
-		ruleIOByteReader(p, r, fns)
-		ruleIOTee(p, r)
-		ruleLoopHandler(p, r, []string{"mxj.HandleXmlReader", "mxj.HandleXmlReaderRaw", "mxj.HandleJsonReader", "mxj.HandleJsonReaderRaw",
-			"x2jw.XmlMsgsFromReader", "x2jw.XmlMsgsFromReaderAsJson", "x2jw.XmlMsgsFromFile", "x2jw.XmlMsgsFromFileAsJson"})
-	})
-
-	register("TABt", "temporary", nil, ruleTableEscape, ruleTableNanInf, ruleTableKeys, ruleTableNoRewrite, ruleTableGob, ruleTablePartition)
-
-	register("WALKt", "temporary", nil, func(p *Prog, r *Report) {
-		ruleWalkProgress(p, r, []string{"mxj.valuesForKeyPath", "mxj.updateValuesForKeyPath", "x2jw.valuesFromKeyPath"})
-		ruleWalkHandover(p, r)
-		ruleWalkTotal(p, r, []walkerSpec{{"mxj.hasKey", nil}, {"mxj.hasKeyPath", nil}, {"mxj.getLeafNodes", []string{"param:noattr", "load(mxj.attrPrefix)"}},
-			{"mxj.writeMap", nil}, {"x2jw.hasKey", nil}, {"x2jw.hasKeyPath", nil}})
-		ruleWalkLeaf(p, r)
-		rulePairCount(p, r, []string{"mxj.Map.ValuesForKey", "mxj.Map.oldValuesForPath"})
-		rulePairUpdate(p, r)
-		rulePairAtomic(p, r)
-		ruleWalkParent(p, r)
-		ruleWalkCollect(p, r, []string{"mxj.hasKey", "mxj.valuesForKeyPath", "x2jw.hasKey", "x2jw.valuesFromKeyPath"})
-		ruleShortestMetric(p, r, []string{"mxj.Map.PathForKeyShortest", "x2jw.PathForKeyShortest"})
-		ruleAliasReuse(p, r, p.PkgFuncs("mxj"))
-	})
-
-	register("INFt", "temporary", nil, func(p *Prog, r *Report) {
-		ruleInflCover(p, r)
-		ruleInflFieldSep(p, r)
-		ruleInflCastFlag(p, r)
-		ruleInflFilter(p, r, []string{"mxj.hasKey", "mxj.valuesForKeyPath", "mxj.updateValuesForKeyPath", "mxj.updateValue"})
-		ruleInflIndent(p, r)
-		ruleInflCrumb(p, r, []string{"mxj.hasKeyPath", "x2jw.hasKeyPath"})
-	})
-
-	register("ESCt", "temporary", nil, ruleEsc)
-
-	register("MISCt", "temporary", nil, func(p *Prog, r *Report) {
-		ruleValidCoupling(p, r)
-		rulePairSeq(p, r)
-		ruleDecodeSibling(p, r, []string{"mxj.xmlToMapParser", "mxj.xmlSeqToMapParser"})
-		ruleWalkArms(p, r, []string{"mxj.marshalMapToXmlIndent", "mxj.mapToXmlSeqIndent"})
-		ruleAnyXmlList(p, r)
-	})
+			ruleErrPkg(p, r, all, []string{"j2x.", "x2j.", "x2jw."})
+		},
+		func(p *Prog, r *Report) { ruleOptDead(p, r, "x2jw") })
 }
